@@ -79,6 +79,7 @@ var selfMutants = []selfMutant{
 	{Rule: "R-EOFNEST", File: "css/parse.go", Only: "cssparser", Old: "		if tt, data := p.popToken(false); tt != ErrorToken {\n			p.tt = tt\n			p.data = append(p.data, data...)\n		}", New: "		tt, data := p.popToken(false)\n		p.tt = tt\n		p.data = append(p.data, data...)", Why: "end of input merged into the '*' hack"},
 	{Rule: "R-PREC", File: "js/parse.go", Old: "		left = &UnaryExpr{PreIncrToken, p.parseExpression(OpUnary)}\n		precLeft = OpUpdate", New: "		left = &UnaryExpr{PreIncrToken, p.parseExpression(OpUnary)}\n		precLeft = OpUnary", Why: "prefix ++ treated as a UnaryExpression (++a ** b rejected)"},
 	{Rule: "R-INCTX", File: "js/parse.go", Old: "			prevIn := p.in\n			p.in = true\n			left = &IndexExpr{left, p.parseExpression(OpExpr), precLeft, false}", New: "			prevIn := p.in\n			left = &IndexExpr{left, p.parseExpression(OpExpr), precLeft, false}", Why: "index expression parsed without [In]"},
+	{Rule: "R-WALK", File: "js/parse.go", Old: "			newExpr := &NewExpr{p.parseExpression(OpNew), nil}", New: "			newExpr := NewExpr{X: p.parseExpression(OpNew)}", Why: "a node value (not a pointer) is stored in the tree"},
 	// bounds engine
 	{Rule: "R-BOUNDS", File: "common.go", Old: "		if i >= len(b) || b[i] < '0' || b[i] > '9' {", New: "		if i > len(b) || b[i] < '0' || b[i] > '9' {", Props: []string{"C16"}, Why: "Number reads one byte past the exponent sign"},
 	{Rule: "R-BOUNDS", File: "common.go", Old: "	if num == 0 || num == len(b) {", New: "	if num == 0 {", Props: []string{"C16"}, Why: "Dimension indexes the byte after a number that spans the argument"},
